@@ -9,6 +9,12 @@ CLAIMED = {
  "C03": ("invariant walker at a hook (state snapshot) after every call",
          "After every call of the C01 workloads plus an invalid-argument sweep from every swept state, the complete internal state (hook snapshot) is walked for exactly the clauses of the statement (parent exists, is a real directory and lists the child; listed names exist; entry path == key; data records == regular files; reachability from / == all keys; cwd/root absolute; lock not poisoned) and cross-checked through exists()/all_paths()/Display.",
          "Invariants are observed at call boundaries; concurrent quiescent points are covered by C04's runs.", "5/C03"),
+ "C13": ("transcript-equality monitor (direct backend vs enum wrapper) over deterministic and random histories",
+         "The same call sequence (a pass calling every VirtualFileSystem method, then seeded random histories of the C01 alphabet) is executed on Memfs, Vfs::Memfs and Memfs::upcast() instances; each result and the complete hook snapshot after every call must be equal; likewise Stdfs vs Vfs::Stdfs in two sandboxes (results compared modulo the sandbox prefix, trees through std::fs). Every Entry accessor of every VfsEntry obtained is compared with the wrapped entry extracted by pattern match, before and after follow(true/false/true).",
+         "Copy calls whose result depends on Memfs's per-instance hash order (failing half way / link kinds) are left out and counted; the Stdfs half runs as uid 1000; set_cwd only on Memfs.", "5/C13"),
+ "C20": ("predicate/postcondition oracle around each macro under catch_unwind, over swept states",
+         "For every reference state of the C01 sweep, every path (plus '/', an absent, a relative and the empty path) and each of the 19 macros with data/target variants, the macro runs under catch_unwind on Memfs, through Vfs::Memfs and on a Stdfs sandbox materialised with std::fs; checking macros must panic exactly when the documented predicate (evaluated on the reference tree) is false, name themselves and the path, and change nothing; acting macros must pass exactly when the documented postcondition holds on the observed post state. capture_panic is exercised nested and concurrently.",
+         "Predicates/postconditions come from each macro's own doc comment incl. documented exemptions; Stdfs cases are restricted to C02's domain.", "5/C20"),
  "C14": ("reference-function monitor over exhaustive + random inputs",
          "sys::clean / PathExt::clean are run on every string over {/,.,a,b} up to length 9 (quick) / 11 (thorough, 5.6 M inputs) and on seeded random strings over a wide alphabet; a monitor compares each result with a byte-level port of Go's path.Clean and checks idempotence, absoluteness and non-emptiness. Exhaustive below the bound, sampled above it.",
          "Trusts the Go port in harness/src/refs.rs (written from the published algorithm, no std::path). UTF-8 inputs only.", "5/C14"),
